@@ -84,7 +84,10 @@ impl Driver {
         }
 
         let content =
-            fs::read_to_string(path.clone()).expect("Should have been able to read the file");
+            fs::read_to_string(path.clone()).map_err(|err| DriverError::FileNotReadable {
+                path: path.display().to_string(),
+                message: err.to_string(),
+            })?;
         self.sources.insert(path.clone(), content.clone());
         Ok(content)
     }
@@ -416,9 +419,12 @@ impl Driver {
 
     /// This function converts a [`DriverError`] to a [`miette`] report.
     pub fn error_to_report(&mut self, err: DriverError, path: &PathBuf) -> miette::Report {
-        let content = self.source(path).expect("Couldn't find source file");
         let err: miette::Error = err.into();
-        err.with_source_code(content)
+        // an unreadable file has no source code to attach
+        match self.source(path) {
+            Ok(content) => err.with_source_code(content),
+            Err(_) => err,
+        }
     }
 
     /// This function deletes all files in the target directory.
